@@ -122,6 +122,110 @@ type C29Lists struct {
 
 func (*C29Lists) GetTypeID() uint8 { return 14 }
 
+// ---- embedded structs that carry struct types of their own (ABIs c29e1, c29e2, c29e3, c29e) ----
+//
+// A struct type reached ONLY through an embedded (flattened) struct must still be described
+// in ABI.Types, otherwise the flattened field names a type the ABI does not contain.
+
+// C29PtA, C29PtB, C29PtC are referenced only from inside the embedded C29EmbHead.
+type C29PtA struct {
+	X uint32 `serialize:"true" json:"x"`
+	Y int64  `serialize:"true" json:"y"`
+}
+
+type C29PtB struct {
+	Tag string   `serialize:"true" json:"tag"`
+	W   []uint16 `serialize:"true" json:"w"`
+}
+
+type C29PtC struct {
+	K uint8         `serialize:"true" json:"k"`
+	A codec.Address `serialize:"true" json:"a"`
+}
+
+type C29EmbHead struct {
+	Label  string    `serialize:"true" json:"label"`
+	Origin C29PtA    `serialize:"true" json:"origin"`
+	Path   []C29PtB  `serialize:"true" json:"path"`
+	Ends   [2]C29PtC `serialize:"true" json:"ends"`
+}
+
+// C29EmbAct: one level of embedding; the embedded struct has a struct field, a []struct
+// field and a [2]struct field whose element types appear nowhere else.
+type C29EmbAct struct {
+	C29EmbHead `serialize:"true"`
+	Amount     uint64 `serialize:"true" json:"amount"`
+}
+
+func (*C29EmbAct) GetTypeID() uint8 { return 20 }
+
+// C29OutPt is referenced only from inside the embedded C29OutHead.
+type C29OutPt struct {
+	Code int16  `serialize:"true" json:"code"`
+	Msg  string `serialize:"true" json:"msg"`
+}
+
+type C29OutHead struct {
+	First C29OutPt   `serialize:"true" json:"first"`
+	Rest  []C29OutPt `serialize:"true" json:"rest"`
+}
+
+// C29EmbOut: the same for an output type.
+type C29EmbOut struct {
+	Units      uint64 `serialize:"true" json:"units"`
+	C29OutHead `serialize:"true"`
+}
+
+func (*C29EmbOut) GetTypeID() uint8 { return 20 }
+
+// C29L2Leaf is referenced only from the second-level embedded struct C29L2Inner,
+// C29L1Priv only from the first-level embedded struct C29L1Mid.
+type C29L2Leaf struct {
+	K uint8  `serialize:"true" json:"k"`
+	V []byte `serialize:"true" json:"v"`
+}
+
+type C29L2Inner struct {
+	Leaf   C29L2Leaf   `serialize:"true" json:"leaf"`
+	Leaves []C29L2Leaf `serialize:"true" json:"leaves"`
+	N      int16       `serialize:"true" json:"n"`
+}
+
+type C29L1Priv struct {
+	Q int32  `serialize:"true" json:"q"`
+	R string `serialize:"true" json:"r"`
+}
+
+type C29L1Mid struct {
+	C29L2Inner `serialize:"true"`
+	Mid        C29L1Priv   `serialize:"true" json:"mid"`
+	Mids       []C29L1Priv `serialize:"true" json:"mids"`
+}
+
+// C29EmbTwo: two levels of embedding, each level with a struct type of its own.
+type C29EmbTwo struct {
+	Pre      uint16 `serialize:"true" json:"pre"`
+	C29L1Mid `serialize:"true"`
+	Post     string `serialize:"true" json:"post"`
+}
+
+func (*C29EmbTwo) GetTypeID() uint8 { return 21 }
+
+type C29CtlHead struct {
+	In  C29Inner   `serialize:"true" json:"in"`
+	Ins []C29Inner `serialize:"true" json:"ins"`
+}
+
+// C29EmbCtl (control): the struct type inside the embedded struct is ALSO referenced by a
+// direct field of the same registered type.
+type C29EmbCtl struct {
+	C29CtlHead `serialize:"true"`
+	Direct     C29Inner `serialize:"true" json:"direct"`
+	Z          int8     `serialize:"true" json:"z"`
+}
+
+func (*C29EmbCtl) GetTypeID() uint8 { return 22 }
+
 // nativeBytes is "the type's own encoding" for the harness types: type id + linear codec,
 // exactly how morpheusvm's Transfer encodes itself.
 func nativeBytes(v codec.Typed) ([]byte, error) {
@@ -323,6 +427,7 @@ type c29Proto struct {
 	layouts         map[string]string // struct type name (top-level and nested) -> deep field layout
 	nFields         int               // serialized fields of the top-level struct (embedded ones flattened)
 	listsOnly       bool              // every serialized field is a string or a list
+	embStructs      int               // named struct types reached through an embedded (flattened) struct of the top-level type
 }
 
 func (p *c29Proto) key() string { return p.abi + "|" + p.name + "|" + p.kind }
@@ -395,6 +500,13 @@ func c29Register(t *testing.T, name string, actionTypes, outputTypes []codec.Typ
 					p.listsOnly = false
 				}
 			}
+			for i := 0; i < typ.NumField(); i++ {
+				if f := typ.Field(i); f.Anonymous && f.Tag.Get("serialize") == "true" {
+					sub := map[string]string{}
+					c29Layout(f.Type, sub, true)
+					p.embStructs += len(sub)
+				}
+			}
 			c29Protos[name] = append(c29Protos[name], p)
 			c29ByKey[p.key()] = p
 		}
@@ -434,6 +546,14 @@ func c29Setup(t *testing.T) {
 	c29Register(t, "c29b", c29b.Actions(), c29b.Outputs())
 	c29Register(t, "c29c", c29c.Actions(), c29c.Outputs())
 	c29Register(t, "c29d", c29d.Actions(), c29d.Outputs())
+	// embedded structs with struct types of their own: each in its OWN abi.NewABI call (no
+	// other registered type can supply the nested type descriptions) and all in one call
+	c29Register(t, "c29e1", []codec.Typed{&C29EmbAct{}}, []codec.Typed{&C29EmbOut{}})
+	c29Register(t, "c29e2", []codec.Typed{&C29EmbTwo{}}, []codec.Typed{&C29EmbTwo{}})
+	c29Register(t, "c29e3", []codec.Typed{&C29EmbCtl{}}, []codec.Typed{&C29EmbCtl{}})
+	c29Register(t, "c29e",
+		[]codec.Typed{&C29EmbAct{}, &C29EmbTwo{}, &C29EmbCtl{}, &C29Nested{}},
+		[]codec.Typed{&C29EmbOut{}, &C29EmbTwo{}, &C29EmbCtl{}, &C29Out{}})
 }
 
 // c29Tracker remembers which struct type names the process has already pushed through
@@ -629,7 +749,7 @@ func c29NativeParse(r *kit.Run, c c29Case) {
 
 func TestC29(t *testing.T) {
 	r := kit.Start(t, "C29", "exploration")
-	r.Rule("one process, PRNG-ordered interleaving of six ABIs: morpheusvm (Transfer / TransferResult), a harness ABI (structs covering every declared kind, plus types with ZERO serialized fields, a single field, only strings/lists) and four ABIs built with abi.NewABI from four Go type sets (packages c29a..c29d) that share the type names Transfer, TransferResult (also with morpheusvm), Batch, Ping, Lists, One, Ack, Receipt and the nested name Leg with different field lists / orders / widths / kinds / type ids; each step keeps the ABI of the preceding step (1/4) or draws one uniformly, then a registered type of it. Values drawn by reflection (every integer width at 0 / max / min / -1 / 2^53+1 / random, strings incl. unicode, escapes, NUL and 300 bytes, byte slices and lists nil / empty / 1 / few / 200+, nested and embedded structs, fixed arrays, lists of lists, addresses; 1 in 6 values with every string and list empty). Judged for the value actually used: dynamic.Marshal(abi, name, json(v)) == type id | linear-codec bytes of v (actions), dynamic.UnmarshalAction/UnmarshalOutput(abi, native bytes) == json(v) compared as parsed JSON with exact numbers and null == empty (and never an empty answer); for morpheusvm's Transfer also native parser(dynamic bytes) == v. Concurrent part: 12 goroutines (own PRNG streams) draw (ABI, registered type, value) the same way and encode / decode through the ABIs at the same time; every result is judged against the native bytes / the value's JSON exactly as in the sequential part (keys C29/concurrent/<type>/..., panics included). Non-trivial = value with at least one non-zero field, or a step that switches the ABI; distinct = (abi, type, kind, per-field value class / length class fingerprint) and, for ABI switches, (preceding abi/type/kind -> this abi/type/kind).")
+	r.Rule("one process, PRNG-ordered interleaving of ten ABIs: morpheusvm (Transfer / TransferResult), a harness ABI (structs covering every declared kind, plus types with ZERO serialized fields, a single field, only strings/lists), four ABIs built with abi.NewABI from four Go type sets (packages c29a..c29d) that share the type names Transfer, TransferResult (also with morpheusvm), Batch, Ping, Lists, One, Ack, Receipt and the nested name Leg with different field lists / orders / widths / kinds / type ids, and four ABIs for embedded (flattened) structs that carry struct types of their own: c29e1 = {action C29EmbAct, output C29EmbOut: the embedded struct has a struct field, a []struct field and a [2]struct field whose element types are referenced nowhere else}, c29e2 = {C29EmbTwo: an embedded struct that embeds another struct, each level with a struct / []struct field of a type referenced nowhere else}, c29e3 = {C29EmbCtl, control: the struct type inside the embedded struct is also a direct field} - each built by its OWN abi.NewABI call so that no other registered type can supply the nested type descriptions - and c29e = all of them plus C29Nested / C29Out in one call; each step keeps the ABI of the preceding step (1/4) or draws one uniformly, then a registered type of it. Values drawn by reflection (every integer width at 0 / max / min / -1 / 2^53+1 / random, strings incl. unicode, escapes, NUL and 300 bytes, byte slices and lists nil / empty / 1 / few / 200+, nested and embedded structs, fixed arrays, lists of lists, addresses; 1 in 6 values with every string and list empty). Judged for the value actually used: dynamic.Marshal(abi, name, json(v)) == type id | linear-codec bytes of v (actions), dynamic.UnmarshalAction/UnmarshalOutput(abi, native bytes) == json(v) compared as parsed JSON with exact numbers and null == empty (and never an empty answer); for morpheusvm's Transfer also native parser(dynamic bytes) == v. Concurrent part: 12 goroutines (own PRNG streams) draw (ABI, registered type, value) the same way and encode / decode through the ABIs at the same time; every result is judged against the native bytes / the value's JSON exactly as in the sequential part (keys C29/concurrent/<type>/..., panics included). Non-trivial = value with at least one non-zero field, or a step that switches the ABI; distinct = (abi, type, kind, per-field value class / length class fingerprint) and, for ABI switches, (preceding abi/type/kind -> this abi/type/kind).")
 	r.Assume(
 		"encoding / decoding through an ABI is a function of (ABI, type, value): the result required of one call does not depend on other calls running at the same time",
 		"only kinds the ABI layer declares (ints of all widths, string, []byte, Address, structs, slices, fixed arrays); bool, maps, pointers and named non-struct types are outside its declared support",
@@ -748,6 +868,9 @@ func TestC29(t *testing.T) {
 		}
 		if p.nFields == 1 {
 			r.Count("single_field_type_values", 1)
+		}
+		if p.embStructs > 0 {
+			r.Count("values_of_types_whose_embedded_struct_has_struct_types", 1)
 		}
 		if empty && p.listsOnly {
 			r.Count("values_with_only_empty_strings_and_lists", 1)
